@@ -13,11 +13,14 @@ Transcription (import-free, executable) of
   concerned: `applyEntry`, `applyBatch`, `applyLogEntries`;
 * the version part of `__tryLogCompaction` / `__loadDumpFile` (`:1367-1382`, `:1384-1415`): `takeDump`, `loadDump`.
 
-The model is of the REPAIRED code (`/verif/fixes/D10-*.diff`, `D11-*.diff`, `D21-*.diff`, `D22-*.diff`):
+The model is of the REPAIRED code (`/verif/fixes/D10-*.diff`, `D11-*.diff`, `D21-*.diff`, `D22-*.diff`, and the
+repairs D4 / D9 of the replication core as far as they touch these functions):
  D10: an unsupported VERSION entry stops the batch and keeps its subscribers;
  D11: after a dump is loaded the name table is rebuilt for the restored enabled version;
  D21: a node whose enabled version (restored from a dump) exceeds its own code version applies nothing;
- D22: with a user serializer the enabled version is stored next to the internal dump data and restored.
+ D22: with a user serializer the enabled version is stored next to the internal dump data and restored;
+ D9: an exception from `_idToMethod[funcID](...)` - here: `KeyError` for an unknown id - is logged and becomes the
+     result of the command; the entry counts as applied and the batch goes on.
 
 Names are lists of Unicode code points (`List Nat`) ordered like Python `str`; versions are `Nat`
 (`ver=` is passed through `int()`; negative versions are outside the property and outside the model).
@@ -161,16 +164,26 @@ structure Node where
   waiting : List (Nat × List (Nat × Nat))
 deriving DecidableEq, Repr, Inhabited
 
+/-- Result of `__doApplyCommand` as the subscribers' callbacks see it. -/
+inductive Res where
+  /-- `None` (no-op, membership, VERSION and unknown-type entries) -/
+  | none
+  /-- the value the user implementation `d` returned for argument `arg` -/
+  | value (d : Desc) (arg : Nat)
+  /-- the `KeyError(funcID)` from `_idToMethod[funcID]`, caught and RETURNED as the result (repair D9) -/
+  | keyError (fid : Nat)
+deriving DecidableEq, Repr, Inhabited
+
 inductive Ev where
   /-- user implementation `d` executed for the entry at `idx` -/
   | ran (idx : Nat) (d : Desc) (arg : Nat)
   /-- subscriber callback: `(res, SUCCESS)` when `ok`, `(None, DISCARDED)` otherwise -/
-  | callback (cb : Nat) (res : Option (Desc × Nat)) (ok : Bool)
+  | callback (cb : Nat) (res : Res) (ok : Bool)
   /-- `conf.onCodeVersionChanged(old, new)` -/
   | versionChanged (old new : Nat)
   /-- `SyncObjExceptionWrongVer` caught and logged -/
   | wrongVer (self req : Nat)
-  /-- `KeyError` from `_idToMethod[funcID]` escapes the loop -/
+  /-- `KeyError` from `_idToMethod[funcID]`: caught in `__doApplyCommand`, logged, returned as the result (D9) -/
   | unknownId (idx id : Nat)
   /-- gate D21: enabled version not supported by this code -/
   | blocked (enabled self : Nat)
@@ -192,13 +205,13 @@ def popWaiting (w : List (Nat × List (Nat × Nat))) (idx : Nat) :
   | none => ([], w)
   | some p => (p.2, w.filter (fun q => q.1 != idx))
 
-def fireCallbacks (subs : List (Nat × Nat)) (term : Nat) (res : Option (Desc × Nat)) : List Ev :=
-  subs.map (fun s => if s.1 == term then Ev.callback s.2 res true else Ev.callback s.2 none false)
+def fireCallbacks (subs : List (Nat × Nat)) (term : Nat) (res : Res) : List Ev :=
+  subs.map (fun s => if s.1 == term then Ev.callback s.2 res true else Ev.callback s.2 .none false)
 
 /-- One iteration of the `for entry in entries` loop. The `Bool` says whether the loop goes on. -/
 def applyEntry (n : Node) (e : Entry) : Node × List Ev × Bool :=
   let (subs, w') := popWaiting n.waiting e.idx
-  let done (n' : Node) (evs : List Ev) (res : Option (Desc × Nat)) : Node × List Ev × Bool :=
+  let done (n' : Node) (evs : List Ev) (res : Res) : Node × List Ev × Bool :=
     ({ n' with waiting := w', lastApplied := n'.lastApplied + 1 }, evs ++ fireCallbacks subs e.term res, true)
   match e.cmd with
   | .version v =>
@@ -206,12 +219,12 @@ def applyEntry (n : Node) (e : Entry) : Node × List Ev × Bool :=
       -- WrongVer: logged, subscribers kept (the entry is retried on the next tick), batch stops (D10)
       (n, [Ev.wrongVer (selfCodeVersion n.cls) v], false)
     else
-      done { n with enabled := v, tableVer := v } [Ev.versionChanged n.enabled v] none
+      done { n with enabled := v, tableVer := v } [Ev.versionChanged n.enabled v] .none
   | .regular fid arg =>
     match (idToMethod n.cls)[fid]? with
-    | none => ({ n with waiting := w' }, [Ev.unknownId e.idx fid], false)
-    | some d => done n [Ev.ran e.idx d arg] (some (d, arg))
-  | _ => done n [] none
+    | none => done n [Ev.unknownId e.idx fid] (.keyError fid)
+    | some d => done n [Ev.ran e.idx d arg] (.value d arg)
+  | _ => done n [] .none
 
 def applyBatch (n : Node) : List Entry → Node × List Ev
   | [] => (n, [])
